@@ -4,7 +4,7 @@
    extracted inductives.  No Extract Constant / Extract Inductive of our own. *)
 Require Extraction.
 Require Import ExtrOcamlBasic ExtrOcamlString.
-From OSQ Require Import Num IR Graph Bits Construct DefaultTable Matrix Sem Check ABA Merge McKay CNOTDec Decompose Remap Dec Writer QSExport ParserExpand Builder.
+From OSQ Require Import Num IR Graph Bits Construct DefaultTable Matrix Sem Check ABA Merge McKay CNOTDec Decompose Remap Dec Writer QSExport ParserExpand Builder Reader.
 Extraction Language OCaml.
 Extraction "model.ml"
   mkNum mkCircuit mkGinfo
@@ -14,5 +14,5 @@ Extraction "model.ml"
   can1 get_matrix circuit_matrix gates_matrix kraus_gen
   default_gate aba_angles aba_gates mckay_gates cnot_gates compose_gates try_name merge decompose replace run_decomposer
   remap mapping_ok mapper_ok apply_mapping render_py8 fix_literal write3 export_v1 export_qs
-  parse_program expand_program builder_run builder_step
+  read3 read1 parse_program expand_program builder_run builder_step
   reindex_gate check_replacement compare_gates compare_gates_ord gate_eq equiv_up_to_phase.
